@@ -358,4 +358,31 @@ PROPS['C14'] = {
     'design_ref': 'DESIGN.md section 5 C14',
 }
 
+PROPS['C06'] = {
+    'modules': FS_MODULES + ['contracts.mvcc', 'contracts.undo'],
+    'lemmas': [],
+    'level': 'proof',
+    'bounded': [
+        {'func': 'ZODB.DB:DB.undoMultiple<undo-histories>',
+         'bound': 'FileStorage through DB: 13 fixed scenarios (undo of last change / of a creation / with an unrelated '
+                  'later change / with a mergeable later change / two mergeable ones in one undo, both orders / with a conflicting later change (refused, unchanged) / '
+                  'two transactions on one object in one undo in both orders, then undo of that undo / two objects / '
+                  'undo of undo / after reopen / second connection across its boundary) + 40 (thorough: 400) random '
+                  'histories of <=6 transactions over 3 objects with one random undo, against a model'},
+    ],
+    'text': 'FileStorage._transactionalUndoRecord proved as a decision table for every record layout satisfying the '
+            'representation invariant: if the record written by the undone transaction is still current (or the current '
+            'record carries the same bytes, read through back pointers) the result is a back-pointer copy of the '
+            'revision before it (or an un-creation when there is none) with the position that is current in the '
+            'COMMITTED index as predecessor; else, when there is a revision before it, the class resolver is handed '
+            '(oid, current tid, undone tid, bytes of the revision before, bytes of the CURRENT record) and its answer is '
+            'returned as new data; every other path raises UndoError with nothing staged; an object already staged by '
+            'the same undo is compared against the staged record. The MVCC undo adapter is proved to hand the undone '
+            'oids to the invalidation callback from inside the storage\'s finish, before the data becomes loadable.',
+    'note': 'FileStorage.undo/_txn_undo/_txn_undo_write (transaction walk, writing the records, blob copies), '
+            'DB.undo/TransactionalUndo resource manager, undoLog/undoInfo and MappingStorage are covered by the '
+            'bounded harness only. Assumes A-RESOLVER for the class merge.',
+    'design_ref': 'DESIGN.md section 5 C06',
+}
+
 NOT_YET = {}
